@@ -34,7 +34,7 @@ from vlib import c14_teardown as ct
 ID = "C14"
 CLAIMED = True
 TITLE = "Closing releases the underlying resource at every cancellation point"
-REQUIRED_THEOREMS = ["C14_analysis_sound", "C14_stapled_both", "C14_endpoint_closes", "C14_tls_closes",
+REQUIRED_THEOREMS = ["C14_analysis_sound", "C14_stapled_both", "C14_endpoint_closes", "C14_endpoint_second_close_prompt", "C14_tls_closes",
                      "C14_wrap_failure_closes", "C14_second_close_prompt", "C14_tcpclient_closes_partial",
                      "C14_listener_close_releases"]
 LEVEL_TEXT = (
